@@ -253,8 +253,11 @@ class GridPoints:
         self._grid_mapping_table = None
 
         if self._is_shift is None:
+            # With an arbitrary shift, neither point-group operations nor time
+            # reversal map the shifted grid onto itself.
             self._is_mesh_symmetry = False
-            self._is_shift = self._shift2boolean(None)
+            self._is_time_reversal = False
+            self._is_shift = self._shift2boolean(None, is_gamma_center=is_gamma_center)
             self._set_grid_points()
             self._ir_qpoints += q_mesh_shift / self._mesh
             self._fit_qpoints_in_BZ()
